@@ -8,6 +8,15 @@ CHECKS = {
  "C01": dict(cat="exploration", tech="runtime monitor: end-to-end send/receive log comparison over real sockets, pool-poison hook",
    text="Held on every executed call: for each (compression variant x HTTP version x protocol x codec x kind) configuration and each message sequence (all words over {zero, small, threshold-straddling} up to length 4, length ladder 0..17, size ladders around 512 B / compress-min / 8 MiB) the handler-side and client-side API logs are compared elementwise with what the other side passed in, both directions, plus clean end and the un-cloned reused-holder read. Exploration, not proof: reach is the enumerated sequence shapes and configurations.",
    note="Trusts Go net/http as transport, proto.Equal, and the harness' scripted handlers; buffers poisoned on release by hook H1 (tag verif).", ref="DESIGN.md 4 C01"),
+ "C02": dict(cat="exploration", tech="runtime monitor: handler-error vs client-error comparison over real sockets + HTTP tap",
+   text="Held on every executed error transfer: codes 1..16 x 16 UTF-8 text classes x error source (handler *Error, plain error, interceptor before/after next) x details x metadata x messages-before-error, on every (HTTP version x protocol x codec x kind); the client's error must have the same code, byte-identical message, equal details in order, metadata containing every attached value in order, the messages sent before it, and unary Connect failures must be non-2xx at the tap. Exploration over sampled combinations (thorough enumerates details/before).",
+   note="Assumes valid UTF-8 messages and HTTP-legal printable-ASCII metadata; gRPC over HTTP/1.1 trailers kept under net/http's 4 KiB trailer limit.", ref="DESIGN.md 4 C02"),
+ "C03": dict(cat="exploration", tech="metamorphic runtime monitor: same bytes under every segmentation vs one-piece delivery (scripted io.Reader bodies)",
+   text="Held on every executed (body, segmentation): recorded valid request and response bodies are re-delivered through scripted readers under all 2^(n-1) segmentations (bodies up to 12/14 bytes) or adversarial+random segmentations (longer), each with EOF on the last data read and on a separate read; the complete outcome (messages, error code and text, metadata; handler: received messages, error, full response) must equal the one-piece outcome, which must equal what the application supplied. Exhaustive inside the stated bound, sampled above it.",
+   note="Bodies come from connect-go peers through an in-memory loopback; reads are scripted at the Body/io.Reader boundary, not inside net/http.", ref="DESIGN.md 4 C03"),
+ "C04": dict(cat="fault_enumeration", tech="fault enumeration at the HTTP body/writer boundary with a per-protocol terminator model",
+   text="Held on every enumerated fault: every cut offset of every recorded response and request body x {clean EOF, unexpected EOF, transport error} x HTTP trailers present/absent, failure of every j-th ResponseWriter.Write, and a client transport failing after j request-body reads. Oracle: success only if the protocol's terminator arrived; otherwise a coded error, delivered messages a prefix of those sent, handler never sees a clean end after a failed/mid-message body, failed writes surface from Send, and every call returns (watchdog).",
+   note="Clean-EOF truncation of a unary Connect 200 body is excluded as indistinguishable; after an in-body terminator a later transport error may yield either completion or a coded error.", ref="DESIGN.md 4 C04"),
 }
 
 REASON_PENDING="check under construction (framework being built); will be claimed once its monitor exists"
